@@ -20,8 +20,11 @@ Qed.
 
 Lemma result_eqb_refl r : result_eqb r r = true.
 Proof.
-  destruct r as [l|e]; simpl; [apply strs_eqb_eq; reflexivity|].
-  destruct e; simpl; try reflexivity. apply Z.eqb_refl.
+  destruct r as [l|l|e]; simpl; [apply strs_eqb_eq; reflexivity| |].
+  - assert (H : forallb (fun x => mem_str x l) l = true).
+    { apply forallb_forall. intros x Hx. apply mem_str_In. exact Hx. }
+    rewrite H. reflexivity.
+  - destruct e; simpl; try reflexivity. apply Z.eqb_refl.
 Qed.
 
 Lemma vis_app a b : vis (a ++ b) = vis a ++ vis b.
@@ -136,11 +139,17 @@ Qed.
 (* feeding an operation's program its exchanges = reading the code on them *)
 Lemma feed_replay F o xs : feed (prog_of F o) xs = fed_top (replay F o xs).
 Proof.
-  destruct o as [g d|gs email]; simpl.
+  assert (Hc : forall gs email, feed (check_prog gs email []) xs = fed_top (rp_check gs email [] xs)).
+  { intros gs email. rewrite feed_check. pose proof (rp_check_no_acc gs email [] xs) as Hn.
+    destruct (rp_check gs email [] xs) as [[l|r| |] xs1]; try reflexivity. exfalso. eapply Hn. reflexivity. }
+  destruct o as [g d|gs email|looks email|g]; cbn [prog_of replay].
   - unfold list_prog. rewrite feed_list_group.
     destruct (rp_group F d g xs) as [[l|r| |] xs1]; reflexivity.
-  - rewrite feed_check. pose proof (rp_check_no_acc gs email [] xs) as Hn.
-    destruct (rp_check gs email [] xs) as [[l|r| |] xs1]; try reflexivity. exfalso. eapply Hn. reflexivity.
+  - apply Hc.
+  - unfold validate_prog. destruct looks as [|x looks]; [reflexivity|].
+    destruct (looks_uncached (x :: looks)); [apply Hc | reflexivity].
+  - unfold populate_prog. rewrite feed_list_group.
+    destruct (rp_group F 4 g xs) as [[l|r| |] xs1]; reflexivity.
 Qed.
 
 Lemma result_ok_done F o xs r : feed (prog_of F o) xs = FDone r -> r <> RErr EOpen -> result_ok F o xs r = true.
@@ -148,7 +157,7 @@ Proof.
   rewrite feed_replay. unfold result_ok. intros H Hr.
   destruct (replay F o xs) as [[l|r'| |] xs1]; simpl in H; try discriminate.
   destruct xs1; [|discriminate]. injection H as ->.
-  rewrite result_eqb_refl. destruct r as [l|[]]; try reflexivity. contradiction.
+  rewrite result_eqb_refl. destruct r as [l|l|[]]; try reflexivity. contradiction.
 Qed.
 
 Lemma result_ok_rejected F o xs rej : feed (prog_of F o) xs = FPending rej -> result_ok F o xs (RErr EOpen) = true.
@@ -213,7 +222,7 @@ Proof.
   - destruct Hsp as (-> & -> & -> & ->). cbn [co_req co_done opt_hooks vis filter is_nil].
     inversion HR as [r0 Hr|]; subst. rewrite Nat.eqb_refl. cbn [feed] in Hfeed.
     rewrite (result_ok_done F o xs r Hfeed Hr). cbn [andb].
-    assert (Eo : is_open_err r = false) by (destruct r as [l|[]]; try reflexivity; contradiction).
+    assert (Eo : is_open_err r = false) by (destruct r as [l|l|[]]; try reflexivity; contradiction).
     rewrite Eo. eexists; split; [reflexivity|]. constructor; simpl; auto.
   - inversion HR as [|q0 k0 Hk]; subst.
     destruct Hsp as (ob & -> & Hb & Hno & Hc).
